@@ -179,6 +179,30 @@ func (sc *Scope) compile(x *SExpr) Val {
 		a := sc.compile(x.Args[0])
 		return sc.selectField(a, x.Name)
 	case SIndex:
+		if x.Args[0].Kind == SMem {
+			// Mem[T][b] : the backing array of base b (all leaves)
+			t := sc.resolveType(x.Args[0].Type)
+			b := sc.compile(x.Args[1]).T()
+			out := Val{Typ: nil}
+			for _, l := range e.layout(t) {
+				n := "M." + typeKey(t) + l.Path
+				srt := ArrSort("Int", ArrSort("Int", l.Sort))
+				vc.noteSort(n, srt)
+				out.Leaves = append(out.Leaves, Sel(vc.sv(sc.state(), n, srt), b))
+			}
+			return out
+		}
+		if x.Args[0].Kind == SIndex && x.Args[0].Args[0].Kind == SMem {
+			t := sc.resolveType(x.Args[0].Args[0].Type)
+			b := sc.compile(x.Args[0].Args[1]).T()
+			p := sc.compile(x.Args[1]).T()
+			lv := vc.elemLV(b, p, t)
+			for _, l := range e.layout(t) {
+				n, s := vc.leafVar(lv, l)
+				vc.noteSort(n, s)
+			}
+			return vc.load(sc.state(), lv)
+		}
 		a := sc.compile(x.Args[0])
 		return sc.index(a, x.Args[1], x)
 	case SSlice:
@@ -671,6 +695,24 @@ func (sc *Scope) call(x *SExpr) Val {
 			kt = k.Leaves[1]
 		}
 		return boolVal(And(Not(Eq(m.T(), Zero)), Sel2(vc.sv(sc.state(), dn, ds), m.T(), kt)))
+	case "ms":
+		a := arg(0)
+		sl, ok := a.Typ.Underlying().(*types.Slice)
+		if !ok {
+			sfail("ms(slice)")
+		}
+		ls := e.layout(sl.Elem())
+		if len(ls) != 1 {
+			sfail("ms: element type must be scalar")
+		}
+		n := "M." + typeKey(sl.Elem())
+		srt := ArrSort("Int", ArrSort("Int", ls[0].Sort))
+		vc.noteSort(n, srt)
+		f := "msOfI"
+		if ls[0].Kind == "float" {
+			f = "msOfF"
+		}
+		return Val{Typ: msetType, Leaves: []*Term{App(f, Sel(vc.sv(sc.state(), n, srt), a.sBase()), a.sOff(), a.sLen())}}
 	case "sameSlice":
 		a, b := arg(0), arg(1)
 		var cs []*Term
